@@ -2,6 +2,7 @@
    GENERATED from Properties/src/C04.props by tools/mkprops.py; property theorems only. *)
 From SP Require Import Model.Template Model.Scanner.
 From SP Require Import Proofs.ImplSpec Proofs.TemplateP Proofs.TemplateLaws Proofs.MapSepP Proofs.ScannerP.
+From SP Require Import Model.Syntax Proofs.BlockSynP Proofs.FullSynP Proofs.MultiSynP.
 
 (* format() -- both copies of the section loop, the per-call memo, the fast split
    path -- returns the literals verbatim and in order with each section replaced
@@ -131,3 +132,31 @@ Example C04_ex_scanner :
   omap t_sections (template_parse [97; 36; 123; 120; 125; 32; 123; 117; 112; 112; 101; 114; 125; 125; 123; 125]%N)
   = Ok [Lit [97; 36; 123; 120; 125; 32]%N; Sec [Upper]; Lit [125]%N; Sec []].
 Proof. vm_compute. reflexivity. Qed.
+
+(* C04_scan_assemble without its parsing premise: literal text, ${...} groups and blocks
+   WRITTEN in any documented spelling (all twenty operations; C02) are found again by the
+   scanner, each block parsed to exactly its operations *)
+Theorem C04_scan_of_written_segments :
+  forall (ps : list pseg), psegs_ok scan_init ps ->
+  parse_multi_template (assemble (map to_seg ps))
+  = let st := fold_left seg_next (map to_seg ps) scan_init in Ok (frev (flush_literal st), st_dbg st).
+Proof. exact multi_template_of_spelled_segments. Qed.
+Check C04_scan_of_written_segments :
+  forall (ps : list pseg), psegs_ok scan_init ps ->
+  parse_multi_template (assemble (map to_seg ps))
+  = let st := fold_left seg_next (map to_seg ps) scan_init in Ok (frev (flush_literal st), st_dbg st).
+Print Assumptions C04_scan_of_written_segments.
+
+(* the common shape  text {block} text {block} ... : text free of "{" and "$" *)
+Theorem C04_text_and_blocks :
+  forall (ps : list piece), Forall piece_ok ps ->
+  parse_multi_template (assemble (map to_seg (map piece_seg ps)))
+  = let st := fold_left seg_next (map to_seg (map piece_seg ps)) scan_init in Ok (frev (flush_literal st), st_dbg st).
+Proof. exact template_of_pieces. Qed.
+Check C04_text_and_blocks :
+  forall (ps : list piece), Forall piece_ok ps ->
+  parse_multi_template (assemble (map to_seg (map piece_seg ps)))
+  = let st := fold_left seg_next (map to_seg (map piece_seg ps)) scan_init in Ok (frev (flush_literal st), st_dbg st).
+Print Assumptions C04_text_and_blocks.
+
+Check template_of_pieces_example.
